@@ -12,3 +12,17 @@ ASSUMPTIONS = ["PacMan ghost_locations rows are (column, row) while player_locat
 _P = mp.HistoryProp(PROPERTY, "invariants", mp.C07Mon, n_quick=30, n_thorough=300, max_len=60,
                     styles=("legalish", "chaos", "survive", "legal", "late_illegal", "solveish", "crowded"))
 _P.export(globals())
+
+
+# bounded exhaustive exploration of small deterministic environments (see modelprops.BFS_ENVS)
+_hist_work_items, _hist_run_item = work_items, run_item  # noqa: F821
+
+
+def work_items(tier, flt):  # noqa: F811
+    return _hist_work_items(tier, flt) + mp.bfs_work_items(PROPERTY, "invariants", tier, flt)
+
+
+def run_item(item, seed, tier):  # noqa: F811
+    if item.get("kind") == "bfs":
+        return mp.bfs_run_item(PROPERTY, item, seed, mp.C07Mon, "invariants")
+    return _hist_run_item(item, seed, tier)
